@@ -60,10 +60,13 @@ def check(model: Model, report: Report) -> None:
     # R14.3
     bad = False
     for fi in model.functions.values():
-        for d in fi.decorators:
-            if d.split(".")[-1] in ("lru_cache", "cache", "cached_property", "memoize"):
-                report.fail("R14.3", fi.qualname, f"cache-decorator:{d}", f"@{d} keeps results across calls; its key cannot be shown to determine the result", file=fi.file, line=fi.line)
+        for d in effects.cache_decorators(fi):
+            why = effects.cache_key_problem(model, fi)
+            if why:
+                report.fail("R14.3", fi.qualname, f"cache-decorator:{d.split('(')[0]}", f"@{d} keeps results across calls and {why}", file=fi.file, line=fi.line)
                 bad = True
+            else:
+                report.ok("R14.3", fi.qualname, f"@{d.split('(')[0]}: the cache key (arguments, instance equality) covers everything the body reads")
     for fi, node, msg in effects.percall_violations(model):
         report.fail("R14.3", fi.qualname if fi else "<module>", f"percall-escape:{msg}", f"{msg}: a per-call object becomes long-lived state", file=fi.file if fi else "", line=getattr(node, "lineno", 0))
         bad = True
